@@ -1307,6 +1307,7 @@ def gen_C20(o, rng, tier):
             o.op(f"s0 serde_zst {k}", test=True)
             o.op(f"m0 serde_zst {k}", test=True)
         o.end()
+    hcount = 0
     for nn in range(0, n + 1):
         u = list(range(nn + 1))
         for lay in layouts(nn, u):
@@ -1328,16 +1329,35 @@ def gen_C20(o, rng, tier):
                     o.op("s1 eq s0")
                     o.op("s1 iter nnnnn")
                     o.end()
+                    # the same through the token format (serde's data model itself), once per
+                    # `size_hint` behaviour of the deserializer: none / exact / Some(0) / overstating
+                    hcount += 1
+                    for h in (range(4) if tier != "quick" else [hcount % 4]):
+                        o.case(m0=nn, m1=dcap, s0=nn, s1=dcap, tag="t%d" % h)
+                        build_map(o, "m0", lay, via_removal=variant)
+                        o.op(f"m0 serde m1 tok{h}", test=True)
+                        o.op("m0 eq m1")
+                        o.op("m1 eq m0")
+                        o.op("m1 len")
+                        for c in u:
+                            o.op(f"m1 get q:{c}#0")
+                        build_set(o, "s0", lay)
+                        o.op(f"s0 serde s1 tok{h}", test=True)
+                        o.op("s0 eq s1")
+                        o.op("s1 eq s0")
+                        o.op("s1 iter nnnnn")
+                        o.end()
     for _ in range(40 if tier == "quick" else 400):
         nn = rng.choice([2, 3, 4, 6])
         dn = rng.choice(menu)
         o.case(m0=nn, m1=dn, s0=nn, s1=dn, tag="r")
         random_map_seq(o, rng, nn, rng.randint(5, 25), list(range(nn + 2)), with_forget=False, regs=("m0",))
-        o.op("m0 serde m1", test=True)
+        fmt = rng.choice(["", "", " tok0", " tok1", " tok2", " tok3"])
+        o.op("m0 serde m1" + fmt, test=True)
         o.op("m0 eq m1")
         o.op("m1 iter iter 0 nnnnnnn")
         random_set_seq(o, rng, min(nn, dn) if dn else 0, rng.randint(3, 12), list(range(nn + 2)))
-        o.op("s0 serde s1", test=True)
+        o.op("s0 serde s1" + fmt, test=True)
         o.op("s1 eq s0")
         o.end()
 
